@@ -46,7 +46,7 @@ FAULTS = ['local_disconnect', 'remote_disconnect', 'link_loss_both', 'transport_
 
 def gen_teardown(rng, tier, seed):
     proc = rng.choice(LE_PROCS + CLASSIC_PROCS)
-    return {'proc': proc, 'fault': rng.choice(FAULTS), 'profile': rng.choice(['zero', 'lan', 'radio', 'skewed']), 'max_k': 60 if tier == 'quick' else 200,
+    return {'proc': proc, 'fault': rng.choice(FAULTS), 'profile': rng.choice(['zero', 'lan', 'radio', 'skewed', 'burst', 'burst-radio']), 'max_k': 60 if tier == 'quick' else 200,
             'bystander': rng.random() < 0.4}
 
 
